@@ -581,6 +581,12 @@ func helloDetails(j Join) wamp.Dict {
 		"publisher": {}, "subscriber": {}, "caller": {}, "callee": {},
 	}
 	for _, f := range j.Feats {
+		if strings.HasPrefix(f, "-") {
+			// the session does not announce this role at all (the router does not care:
+			// whatever the session then does in that role is served - and undone - all the same)
+			delete(roles, f[1:])
+			continue
+		}
 		rf := strings.SplitN(f, ":", 2)
 		if len(rf) != 2 {
 			continue
